@@ -163,8 +163,11 @@ type trsMemHandle[K cmp.Ordered] struct {
 
 func trsVal(i, style int) pdf.Object {
 	k := 0
-	if style == 1 {
+	switch style {
+	case 1:
 		k = i % 6
+	case 2: // no bare references (they mean nothing in another file)
+		k = i % 5
 	}
 	switch k {
 	case 1:
@@ -210,6 +213,16 @@ func trsValIdx(o pdf.Object) (int, bool) {
 }
 
 // ---- one case ----
+
+// vstyle is the value style in effect: a tree that is copied to another file (via 3) stores no
+// bare reference values -- a reference is translated on the way, and the harness' references
+// point nowhere (values that are references to real objects: see trs_c17x.go).
+func (tc *trsTreeCase[K]) vstyle() int {
+	if tc.via == 3 && tc.style == 1 {
+		return 2
+	}
+	return tc.style
+}
 
 type trsTreeCase[K cmp.Ordered] struct {
 	keys   []K // in the order handed to Write
@@ -307,7 +320,7 @@ func trsWriteFile[K cmp.Ordered](api *trsTreeAPI[K], tc *trsTreeCase[K]) (data [
 	if tc.via == 2 {
 		m := make(map[K]pdf.Object, len(tc.keys))
 		for i, k := range tc.keys {
-			m[k] = trsVal(i, tc.style)
+			m[k] = trsVal(i, tc.vstyle())
 		}
 		rm := pdf.NewResourceManager(w)
 		root, werr = asRef(api.embedMem(rm, m))
@@ -317,7 +330,7 @@ func trsWriteFile[K cmp.Ordered](api *trsTreeAPI[K], tc *trsTreeCase[K]) (data [
 	} else if tc.via == 3 {
 		// write the tree to a first file, then let the streaming reader copy it
 		src := *tc
-		src.via, src.stream = 0, 0
+		src.via, src.stream, src.style = 0, 0, tc.vstyle()
 		data1, root1, _, _, err1 := trsWriteFile(api, &src)
 		if err1 != nil || root1 == 0 {
 			werr = err1
@@ -336,13 +349,13 @@ func trsWriteFile[K cmp.Ordered](api *trsTreeAPI[K], tc *trsTreeCase[K]) (data [
 	} else if tc.useMap && api.writeMap != nil {
 		m := make(map[K]pdf.Object, len(tc.keys))
 		for i, k := range tc.keys {
-			m[k] = trsVal(i, tc.style)
+			m[k] = trsVal(i, tc.vstyle())
 		}
 		root, werr = api.writeMap(w, m)
 	} else {
 		seq := func(yield func(K, pdf.Object) bool) {
 			for i, k := range tc.keys {
-				if !yield(k, trsVal(i, tc.style)) {
+				if !yield(k, trsVal(i, tc.vstyle())) {
 					return
 				}
 			}
@@ -652,8 +665,8 @@ func trsRunCase[K cmp.Ordered](api *trsTreeAPI[K], tc *trsTreeCase[K]) (implLine
 				if i >= len(want) || k != want[i] {
 					fail("all-order", "%s.All() entry %d has key %s", name, i, api.tok(k))
 					bad = true
-				} else if !ok || vi != idx[k] || !pdf.Equal(v, trsVal(idx[k], tc.style)) {
-					fail("all-value", "%s.All() key %s has value %v, want %v", name, api.tok(k), v, trsVal(idx[k], tc.style))
+				} else if !ok || vi != idx[k] || !pdf.Equal(v, trsVal(idx[k], tc.vstyle())) {
+					fail("all-value", "%s.All() key %s has value %v, want %v", name, api.tok(k), v, trsVal(idx[k], tc.vstyle()))
 					bad = true
 				}
 			}
@@ -688,7 +701,7 @@ func trsRunCase[K cmp.Ordered](api *trsTreeAPI[K], tc *trsTreeCase[K]) (implLine
 		ss = append(ss, ts)
 		ms = append(ms, tm)
 		if i, present := idx[p]; present {
-			wantV := trsVal(i, tc.style)
+			wantV := trsVal(i, tc.vstyle())
 			if es != nil || !pdf.Equal(vs, wantV) {
 				fail("lookup-present", "FromFile.Lookup(%s) = %v, %v; want %v", api.tok(p), vs, es, wantV)
 			}
@@ -996,8 +1009,8 @@ func trsInterleave[K cmp.Ordered](api *trsTreeAPI[K], stream, mem trsTreeReader[
 	checkLookup := func(where string, k K) {
 		v, err := stream.Lookup(k)
 		if i, present := idx[k]; present {
-			if err != nil || !pdf.Equal(v, trsVal(i, tc.style)) {
-				fail("interleave-lookup", "Lookup(%s) %s = %v, %v; want %v", api.tok(k), where, v, err, trsVal(i, tc.style))
+			if err != nil || !pdf.Equal(v, trsVal(i, tc.vstyle())) {
+				fail("interleave-lookup", "Lookup(%s) %s = %v, %v; want %v", api.tok(k), where, v, err, trsVal(i, tc.vstyle()))
 			}
 		} else if !errors.Is(err, nametree.ErrKeyNotFound) {
 			fail("interleave-lookup", "Lookup(%s) of an absent key %s = %v, %v", api.tok(k), where, v, err)
@@ -1006,7 +1019,7 @@ func trsInterleave[K cmp.Ordered](api *trsTreeAPI[K], stream, mem trsTreeReader[
 	i := 0
 	bad := false
 	for k, v := range stream.All() {
-		if !bad && (i >= n || k != want[i] || !pdf.Equal(v, trsVal(idx[k], tc.style))) {
+		if !bad && (i >= n || k != want[i] || !pdf.Equal(v, trsVal(idx[k], tc.vstyle()))) {
 			fail("interleave-all", "All() with interleaved calls: entry %d is %s = %v (want key %s)", i, api.tok(k), v, api.tok(want[min(i, n-1)]))
 			bad = true
 		}
@@ -1063,7 +1076,7 @@ func trsInterleave[K cmp.Ordered](api *trsTreeAPI[K], stream, mem trsTreeReader[
 			}
 			return
 		}
-		if *pos >= n || k != want[*pos] || !pdf.Equal(v, trsVal(idx[k], tc.style)) {
+		if *pos >= n || k != want[*pos] || !pdf.Equal(v, trsVal(idx[k], tc.vstyle())) {
 			fail("interleave-all", "iterator %s: entry %d is %s = %v", name, *pos, api.tok(k), v)
 		}
 		*pos++
